@@ -1,6 +1,8 @@
 package world
 
 import (
+	_ "embed"
+	"os"
 	"bytes"
 	"encoding/json"
 	"io"
@@ -104,4 +106,33 @@ func (n *Node) Serve(req *http.Request) *http.Response {
 	rec := httptest.NewRecorder()
 	n.Echo.ServeHTTP(rec, req)
 	return rec.Result()
+}
+
+//go:embed testdata/policy.json
+var policyJSON []byte
+
+//go:embed testdata/discovery.json
+var discoveryJSON []byte
+
+// webConfig writes the policy mapping and the discovery definition of a web node and points
+// its configuration at them.
+func (w *World) webConfig(n *Node, env map[string]string) {
+	o := n.Opts
+	os.MkdirAll(n.Dir+"/policy", 0o755)
+	os.WriteFile(n.Dir+"/policy/mapping.json", policyJSON, 0o644)
+	env["NUTS_POLICY_DIRECTORY"] = n.Dir + "/policy"
+	env["NUTS_AUTH_CONTRACTVALIDATORS"] = "dummy"
+	if o.DiscoveryHost != "" {
+		os.MkdirAll(n.Dir+"/discovery", 0o755)
+		def := bytes.ReplaceAll(discoveryJSON, []byte("__SERVER__"), []byte(o.DiscoveryHost))
+		os.WriteFile(n.Dir+"/discovery/definition.json", def, 0o644)
+		env["NUTS_DISCOVERY_DEFINITIONS_DIRECTORY"] = n.Dir + "/discovery"
+		if o.DiscoveryServer {
+			env["NUTS_DISCOVERY_SERVER_IDS"] = "sim-svc"
+		}
+	}
+	if o.ConfigYAML != "" {
+		os.WriteFile(n.Dir+"/nuts.yaml", []byte(o.ConfigYAML), 0o644)
+		env["NUTS_CONFIGFILE"] = n.Dir + "/nuts.yaml"
+	}
 }
